@@ -642,23 +642,39 @@ where
             .iter()
             .map(|o| o.op.prio)
             .collect::<SmallVec<[i64; N_NODES_ON_STACK]>>();
+        // identity and commutativity of the operators that are still standing between the nodes,
+        // kept in sync with `priorities`
+        let mut standing_ops = self
+            .bin_ops
+            .ops
+            .iter()
+            .map(|o| (o.idx, o.op.is_commutative))
+            .collect::<SmallVec<[(usize, bool); N_NODES_ON_STACK]>>();
         let mut used_prio_indices = ExprIdxVec::new();
-
-        let mut already_declined: SmallVec<[bool; N_NODES_ON_STACK]> =
-            smallvec::smallvec![false; self.nodes.len()];
 
         for (i, &bin_op_idx) in prio_indices.iter().enumerate() {
             let num_idx = num_inds[i];
             let node_1 = &self.nodes[num_idx];
             let node_2 = &self.nodes[num_idx + 1];
             if let (DeepNode::Num(num_1), DeepNode::Num(num_2)) = (node_1, node_2) {
-                if !(already_declined[num_idx] || already_declined[num_idx + 1]) {
+                // The two numbers can only be combined if they really are the operands of the
+                // operator. The left number is, if the operator still standing on its left is
+                // executed later due to a lower priority or if it is the same commutative
+                // operator as in `x+2+3`. In `x^2/4/2` the 4 belongs to the first division. The
+                // right number is, if the operator still standing on its right is not executed
+                // earlier due to a higher priority.
+                let is_left_operand = num_idx == 0
+                    || priorities[num_idx - 1] < priorities[num_idx]
+                    || (standing_ops[num_idx].1 && standing_ops[num_idx - 1] == standing_ops[num_idx]);
+                let is_right_operand = num_idx + 1 == priorities.len()
+                    || priorities[num_idx + 1] <= priorities[num_idx];
+                if is_left_operand && is_right_operand {
                     let bin_op_result =
                         self.bin_ops.ops[bin_op_idx].apply(num_1.clone(), num_2.clone());
                     self.nodes[num_idx] = DeepNode::Num(bin_op_result);
                     self.nodes.remove(num_idx + 1);
-                    already_declined.remove(num_idx + 1);
                     priorities.remove(num_idx);
+                    standing_ops.remove(num_idx);
                     // reduce indices after removed position
                     for num_idx_after in num_inds.iter_mut() {
                         if *num_idx_after > num_idx {
@@ -670,19 +686,7 @@ where
                     crate::verif::emit(|| {
                         format!("{{\"ev\":\"fold\",\"form\":\"deep\",\"op\":{bin_op_idx},\"node\":{num_idx}}}")
                     });
-                } else if num_idx > 0 && num_idx < priorities.len() - 1 {
-                    if already_declined[num_idx + 1]
-                        && priorities[num_idx + 1] > priorities[num_idx]
-                    {
-                        already_declined[num_idx] = true;
-                    }
-                    if already_declined[num_idx] && priorities[num_idx] > priorities[num_idx + 1] {
-                        already_declined[num_idx + 1] = true;
-                    }
                 }
-            } else {
-                already_declined[num_idx] = true;
-                already_declined[num_idx + 1] = true;
             }
         }
 
